@@ -114,6 +114,24 @@ func ruleSetValidation(w *World, r *Report) {
 		}
 		k, isK := constInt(b.Y)
 		if !isK {
+			// `k op x` is `x op' k` (comparisons written constant-first)
+			if k2, isK2 := constInt(b.X); isK2 {
+				op := b.Op
+				switch op {
+				case token.LSS:
+					op = token.GTR
+				case token.LEQ:
+					op = token.GEQ
+				case token.GTR:
+					op = token.LSS
+				case token.GEQ:
+					op = token.LEQ
+				}
+				b = &ssa.BinOp{Op: op, X: b.Y, Y: b.X}
+				k, isK = k2, true
+			}
+		}
+		if !isK {
 			continue
 		}
 		// len(item.Key) op k
@@ -500,7 +518,7 @@ func ruleClients(w *World, r *Report) {
 			b0, ok0 := isLoadOfField(v0, "node", "numNodes")
 			b1, ok1 := isLoadOfField(v1, "node", "numBytes")
 			if ok0 && ok1 && b0 == b1 {
-				if c := callOfValue(b0); c != nil && staticCalleeName(c) == "(*nodeLoc).read" {
+				if c := callOfValue(b0); c != nil && (staticCalleeName(c) == "(*nodeLoc).read" || w.readsItsReceiver(c.Common().StaticCallee())) {
 					if _, isRoot := isLoadOfField(c.Common().Args[0], "rootNodeLoc", "root"); isRoot {
 						ok = true
 					}
@@ -522,7 +540,8 @@ func ruleClients(w *World, r *Report) {
 				b0, ok0 := isLoadOfField(v0, "node", "numNodes")
 				b1, ok1 := isLoadOfField(v1, "node", "numBytes")
 				if ok0 && ok1 && b0 == b1 {
-					if c := callOfValue(b0); c != nil && staticCalleeName(c) == "(*nodeLoc).read" {
+					b0 = soleNonNilSource(env.Resolve(b0), 0)
+					if c := callOfValue(b0); c != nil && (staticCalleeName(c) == "(*nodeLoc).read" || w.readsItsReceiver(c.Common().StaticCallee())) {
 						if _, isRoot := isLoadOfField(c.Common().Args[0], "rootNodeLoc", "root"); isRoot {
 							ok = true
 						}
@@ -549,4 +568,68 @@ func init() {
 		ControlEdits: []ControlEdit{{"Collection.SetItem", "if item.Priority == 7 { t.rootAddRef() }"}},
 		Expect:       []Expect{{"S-valid", "(*Collection).SetItem"}},
 	})
+}
+
+// readsItsReceiver: f is a library wrapper around (*nodeLoc).read of its own receiver — every
+// return hands back nil or the node that read produced (e.g. "read and test for presence").
+func (w *World) readsItsReceiver(f *ssa.Function) bool {
+	if f == nil || !w.InLib(f) || len(f.Params) == 0 || f.Blocks == nil {
+		return false
+	}
+	okAll, some := true, false
+	var fromRead func(v ssa.Value, d int) bool
+	fromRead = func(v ssa.Value, d int) bool {
+		if d > 6 {
+			return false
+		}
+		if isNilConst(v) {
+			return true
+		}
+		if ph, ok := v.(*ssa.Phi); ok {
+			for _, e := range ph.Edges {
+				if !fromRead(e, d+1) {
+					return false
+				}
+			}
+			return true
+		}
+		c := callOfValue(v)
+		if c == nil || staticCalleeName(c) != "(*nodeLoc).read" || c.Common().Args[0] != ssa.Value(f.Params[0]) {
+			return false
+		}
+		some = true
+		return true
+	}
+	eachInstr(f, func(in ssa.Instruction) {
+		if ret, ok := in.(*ssa.Return); ok {
+			if len(ret.Results) == 0 || !fromRead(ret.Results[0], 0) {
+				okAll = false
+			}
+		}
+	})
+	return okAll && some
+}
+
+// soleNonNilSource looks through φ-nodes all of whose non-nil operands are one value
+// (`x = nil` on the rejecting arms, `x = n` on the accepting one).
+func soleNonNilSource(v ssa.Value, d int) ssa.Value {
+	ph, ok := v.(*ssa.Phi)
+	if !ok || d > 4 {
+		return v
+	}
+	var one ssa.Value
+	for _, e := range ph.Edges {
+		if isNilConst(e) {
+			continue
+		}
+		e = soleNonNilSource(e, d+1)
+		if one != nil && one != e {
+			return v
+		}
+		one = e
+	}
+	if one == nil {
+		return v
+	}
+	return one
 }
